@@ -1084,6 +1084,31 @@ var witnesses = []witness{
 		}
 		return wantEq("rows", w.q("select count(*) from c"), i(2))
 	}},
+	{id: "F81", props: []string{"C03", "C09"}, known: true, what: "an open that has listed the current version but not yet loaded it, while another connection commits and vacuums with a cutoff in the future: the listed version is in neither place any more and the opener shows an empty table", run: func(w *wEnv) string {
+		w.mk("w", "a primary key, b", sqlh.TableOpts{})
+		for k := 1; k <= 10; k++ {
+			w.x("insert into w values(?,'r')", k)
+		}
+		raced := false
+		sqlh.NextClient("o", func(c *fakes3.Client) {
+			c.Fault = func(idx, midx int, op, key string) error {
+				if !raced && op == "GET" && strings.Contains(key, "/root/current/") {
+					raced = true // the opener has listed; before it loads, the writer commits and vacuums
+					w.x("insert into w values(11,'s')")
+					s3db.Vacuum(context.Background(), "w", time.Now().Add(time.Hour))
+				}
+				return nil
+			}
+		})
+		db := sqlh.Open()
+		defer db.Close()
+		r := sqlh.XS(db, sqlh.CreateSQL(sqlh.TableOpts{Name: "r", Bucket: w.bucket, Prefix: "p", Columns: "a primary key, b", ReadOnly: true}))
+		sqlh.NextClient("", nil)
+		if r != "ok" || !raced {
+			return fmt.Sprintf("open: %s (raced: %v)", r, raced)
+		}
+		return wantEq("rows the opener sees", sqlh.QS(db, "select count(*) from r"), i(11))
+	}},
 	{id: "F76", props: []string{"C04", "C14", "C16", "C05"}, what: "after a commit that failed while storing nodes (twice, or once after any rollback) the next acknowledged commit published a version referring to a node that was never stored", run: func(w *wEnv) string {
 		for variant := 0; variant < 2; variant++ {
 			t := fmt.Sprintf("t%d", variant)
